@@ -1,145 +1,122 @@
-import Utcp.Lemmas.Conn
-import Utcp.Lemmas.Frame
-import Utcp.Handshake
+import Utcp.Lemmas.SendInv
 /-!
 # C18 — every emitted datagram is bounded, framed and accepted by a peer in sync
 
-Local theorems: what `utcp_send_flush` and the handshake senders hand to the outgoing callback.
+* **one call, any state** (`Lemmas/Size.lean`, restated here): what `utcp_send_flush` and the handshake senders hand to
+  the outgoing callback is non-empty, ends in a non-zero byte, and `bitbuf_read_init` recovers exactly the bits written;
+* **any history** (`Lemmas/SendInv.lean`): the send-buffer invariant `SInv` — at most 8191 bits buffered, header
+  placeholder as large as the history words reserved for it, every retransmission record small enough for an empty
+  packet — is established by `utcp_sequence_init` and preserved by *every* operation of the data path of a connected
+  endpoint (send of any bunch, valid or not; flush; `ReceivedPacket` on any bit string, with the retransmissions and
+  flushes the NAKs in it trigger; update), for every clock schedule; and every datagram emitted along any such history
+  has at most `UTCP_MAX_PACKET + 1 = 1025` bytes (`size_invariant`, `no_oversize_datagram`).
+Not proved here: that a peer whose sequence state is in sync accepts and fully parses every such datagram (the two ends
+are tied by the codec round trips of C11 and by the C18 parse monitor on the real code); sends by an endpoint that is
+not connected are outside the invariant (the library has no guard against them, see DESIGN.md §14).
 -/
 namespace Utcp.Props.C18
 open Utcp Utcp.Gen
 
 theorem limits : Gen.UTCP_MAX_PACKET = 1024 ∧ Gen.SIZEOF_SEND_BUFFER = 1024 + 32 + 1 ∧ Gen.UDP_MTU_SIZE = 1452
-    ∧ Gen.MAX_PACKET_HEADER_BITS = 308 ∧ Gen.MAX_PACKET_TRAILER_BITS = 1 := by decide
+    ∧ Gen.MAX_PACKET_HEADER_BITS = 308 ∧ Gen.MAX_PACKET_TRAILER_BITS = 1 := Size.limits
 
-/-- a well-framed datagram: non-empty, last byte non-zero, and `bitbuf_read_init` recovers exactly `payload` -/
-def Framed (bytes : List UInt8) (payload : Bits) : Prop :=
-  bytes ≠ [] ∧ (∃ init last, bytes = init ++ [last] ∧ last ≠ 0) ∧ readInit bytes = some payload ∧ bytes.length = (payload.length + 1 + 7) / 8
-
-theorem framed_of_terminated (payload : Bits) : Framed (bitsToBytes (payload ++ [true])) payload := by
-  obtain ⟨init, last, hb, hl⟩ := bitsToBytes_last_ne_zero payload
-  refine ⟨by rw [hb]; simp, ⟨init, last, hb, hl⟩, readInit_bitsToBytes payload, ?_⟩
-  rw [bitsToBytes_length]; simp
-
-/-- the bits a flush puts on the wire end in the connection-level terminator and the packet-handler terminator -/
-theorem packetBits_terminated (e : Env) (c : Conn) :
-    c.packetBits e = (outgoingHeader e c.lastSessionId c.lastClientId false ++ c.finalHeader.2 ++ c.sendBody ++ [true]) ++ [true] := by
-  unfold Conn.packetBits; simp
+/-! ## one call, any state -/
 
 /-- **every datagram a flush emits is framed**: non-empty, ends in a non-zero byte, and the receiver's
 `bitbuf_read_init` recovers header ++ body ++ connection-level terminator -/
 theorem flush_framed (e : Env) (c : Conn) (h : c.flushDue e = true) :
-    ∃ bytes payload, (c.flush e).log = .out bytes :: c.log ∧ Framed bytes payload ∧ payload.getLast? = some true := by
-  unfold Conn.flush
-  simp only [h, Bool.not_true, Bool.false_eq_true, if_false, flushNow_log]
-  generalize hc' : (if c.sendActive = true then c else c.startPacket) = c'
-  have hlog : c'.log = c.log := by rw [← hc']; split <;> simp
-  refine ⟨bitsToBytes (c'.packetBits e), outgoingHeader e c'.lastSessionId c'.lastClientId false ++ c'.finalHeader.2 ++ c'.sendBody ++ [true], ?_, ?_, ?_⟩
-  · rw [hlog]
-  · rw [packetBits_terminated]; exact framed_of_terminated _
-  · simp
+    ∃ bytes payload, (c.flush e).log = .out bytes :: c.log ∧ Size.Framed bytes payload ∧ payload.getLast? = some true :=
+  Size.flush_framed e c h
 
-/-- the notification header is a 32-bit packed word, the history words, and the (cleared) packet-info bit -/
-theorem encodeNotifHeader_length (h : NotifHeader) : (encodeNotifHeader h).length = 32 + h.hist.length + 1 := by
-  unfold encodeNotifHeader writeU32; simp; omega
-
-theorem headerWith_hist_length (n : Notify) (w : Nat) (hh : n.hist.length = 256) (hw : w ≤ 8) : (n.headerWith w).hist.length = 32 * w := by
-  unfold Notify.headerWith
-  have : histWordsMax = 8 := by decide
-  simp only [this, List.length_take, hh]
-  omega
-
-theorem curWords_range (n : Notify) : 1 ≤ n.curWords ∧ n.curWords ≤ 8 := by
-  obtain ⟨_, _, c_inAck, c_inAckAck, _, _, _, _, _⟩ := n
-  unfold Notify.curWords
-  have : histWordsMax = 8 := by decide
-  rw [this]
-  dsimp only
-  generalize ((if seq_num_greater_equal c_inAck c_inAckAck = true then (seq_num_diff c_inAck c_inAckAck).toNat else histLen) + 31) / 32 = w at *
-  split <;> (try split) <;> omega
-
-/-- a refreshed header occupies exactly the space of the placeholder written when the packet was started (the
-refresh is refused when more history words would be needed), so the body never moves -/
+/-- a refreshed header occupies exactly the space of the placeholder written when the packet was started -/
 theorem finalHeader_same_length (c : Conn) (hh : c.notify.hist.length = 256) (hw : c.notify.writtenWords ≤ 8)
-    (hn : c.sendNotif.length = 33 + 32 * c.notify.writtenWords) : c.finalHeader.2.length = c.sendNotif.length := by
-  unfold Conn.finalHeader Notify.fillRefresh
-  split
-  · rename_i n h heq
-    split at heq
-    · simp at heq
-    · simp at heq
-      obtain ⟨_, rfl⟩ := heq
-      rw [encodeNotifHeader_length, headerWith_hist_length _ _ hh hw, hn]; omega
-  · rfl
+    (hn : c.sendNotif.length = 33 + 32 * c.notify.writtenWords) : c.finalHeader.2.length = c.sendNotif.length :=
+  Size.finalHeader_same_length c hh hw hn
 
-theorem startPacket_header_length (c : Conn) (hh : c.notify.hist.length = 256) :
-    c.startPacket.sendNotif.length = 33 + 32 * c.startPacket.notify.writtenWords ∧ c.startPacket.notify.writtenWords ≤ 8
-    ∧ 1 ≤ c.startPacket.notify.writtenWords ∧ c.startPacket.notify.hist.length = 256 := by
-  unfold Conn.startPacket Notify.fillFresh
-  have hr := curWords_range c.notify
-  simp only
-  rw [encodeNotifHeader_length, headerWith_hist_length _ _ hh hr.2]
-  exact ⟨by omega, hr.2, hr.1, hh⟩
-
-/-- **size**: if the send buffer holds at most 8191 bits (the invariant `GetFreeSendBufferBits ≥ 0` enforces), the
-emitted datagram has at most 1025 bytes: the maximum packet size plus the one byte of terminator framing -/
+/-- **size, one call**: a send buffer of at most 8191 bits goes out as at most 1025 bytes -/
 theorem flush_size (e : Env) (c : Conn) (ha : c.sendActive = true) (hh : c.notify.hist.length = 256) (hw : c.notify.writtenWords ≤ 8)
     (hn : c.sendNotif.length = 33 + 32 * c.notify.writtenWords) (hsz : c.sendBitsNum e ≤ 8191) :
-    (bitsToBytes (c.packetBits e)).length ≤ 1025 := by
-  rw [bitsToBytes_length]
-  unfold Conn.packetBits
-  have hf := finalHeader_same_length c hh hw hn
-  unfold Conn.sendBitsNum at hsz
-  simp only [ha, if_true] at hsz
-  have ho : (outgoingHeader e c.lastSessionId c.lastClientId false).length = e.outHdrLen := by
-    unfold outgoingHeader Env.outHdrLen; simp
-  simp only [List.length_append, ho, hf, List.length_cons, List.length_nil]
-  omega
+    (bitsToBytes (c.packetBits e)).length ≤ 1025 := Size.flush_size e c ha hh hw hn hsz
 
-/-- a keep-alive (empty) packet is at most 42 + 1 bytes -/
+/-- a keep-alive (empty) packet is at most 42 bytes -/
 theorem keepalive_size (e : Env) (c : Conn) (hm : e.magicBits ≤ 32) (hh : c.notify.hist.length = 256) :
-    (bitsToBytes (c.startPacket.packetBits e)).length ≤ 42 := by
-  rw [bitsToBytes_length]
-  unfold Conn.packetBits
-  obtain ⟨h1, h2, h3, h4⟩ := startPacket_header_length c hh
-  have hf := finalHeader_same_length c.startPacket h4 h2 h1
-  have ho : (outgoingHeader e c.startPacket.lastSessionId c.startPacket.lastClientId false).length = e.outHdrLen := by
-    unfold outgoingHeader Env.outHdrLen; simp
-  simp only [List.length_append, ho, hf, h1, List.length_cons, List.length_nil, startPacket_sendBody]
-  unfold Env.outHdrLen
-  omega
+    (bitsToBytes (c.startPacket.packetBits e)).length ≤ 42 := Size.keepalive_size e c hm hh
 
-/-! ## handshake datagrams -/
-
-theorem ite_sub_le (c : Prop) [Decidable c] (x : Nat) (h : x ≤ 16) : (if c then x - 1 else x) ≤ 16 := by split <;> omega
-
-/-- `CapHandshakePacket` appends a whole number of zero bytes (9 … 16, or none for the original protocol
-version) and the terminator bit -/
-theorem capHandshake_shape (e : Env) (rng : Rng) (ver : Nat) (bits : Bits) :
-    ∃ k, k ≤ 16 ∧ (capHandshake e rng ver bits).2 = bits ++ List.replicate (8 * k) false ++ [true] := by
-  unfold capHandshake
-  split
-  · simp only
-    refine ⟨_, ?_, rfl⟩
-    exact ite_sub_le _ _ (by omega)
-  · exact ⟨0, by omega, by simp⟩
-
+/-- handshake padding: 9 … 16 whole zero bytes and the terminator bit -/
 theorem padding_range (e : Env) (rng : Rng) (bits : Bits) :
-    ∃ k, 9 ≤ k ∧ k ≤ 16 ∧ (capHandshake e rng 3 bits).2 = bits ++ List.replicate (8 * k) false ++ [true] := by
-  unfold capHandshake
-  simp only [show (3 : Nat) ≥ 1 from by decide, if_true, show ¬ ((3 : Nat) < 3) from by decide, false_and, Bool.false_eq_true, if_false]
-  refine ⟨16 - (rng.nextLib.2 % 8), by omega, by omega, ?_⟩
-  simp
+    ∃ k, 9 ≤ k ∧ k ≤ 16 ∧ (capHandshake e rng 3 bits).2 = bits ++ List.replicate (8 * k) false ++ [true] := Size.padding_range e rng bits
 
 /-- every handshake datagram is framed -/
 theorem handshake_framed (e : Env) (rng : Rng) (ver : Nat) (bits : Bits) :
-    ∃ payload, Framed (bitsBytes (capHandshake e rng ver bits).2) payload := by
-  obtain ⟨k, _, hk⟩ := capHandshake_shape e rng ver bits
-  unfold bitsBytes
-  rw [hk]
-  exact ⟨_, framed_of_terminated _⟩
+    ∃ payload, Size.Framed (bitsBytes (capHandshake e rng ver bits).2) payload := Size.handshake_framed e rng ver bits
 
-/-! non-vacuity: an idle connected endpoint past its keep-alive interval satisfies the premises -/
+/-! ## any history of the data path -/
+
+/-- what the application and the network can do to a connected endpoint -/
+inductive Op where
+  /-- `utcp_send_bunch` with any bunch (valid or not) -/
+  | send (b : Bunch)
+  /-- `utcp_send_flush` -/
+  | flush
+  /-- the body of any datagram (the bits after the outgoing header) handed to `ReceivedPacket` -/
+  | recv (bits : Bits)
+  /-- `utcp_update` (timeout test and deferred channel teardown) -/
+  | update
+
+def apply (e : Env) (c : Conn) : Op → Conn
+  | .send b => (c.sendBunch e b).1
+  | .flush => c.flush e
+  | .recv bits => (c.receivedPacket e bits).1
+  | .update => (c.checkTimeout e).updateTail.1
+
+/-- a history: each step comes with the process-global configuration and clock of that moment -/
+def run (c : Conn) : List (Env × Op) → Conn
+  | [] => c
+  | (e, op) :: rest => run (apply e c op) rest
+
+/-- **one step**: the invariant is kept and every event added to the log is within the size bound -/
+theorem step_invariant (e : Env) (c : Conn) (op : Op) (h : SInv e c) : SInv e (apply e c op) ∧ Adds SizeOK c (apply e c op) := by
+  cases op with
+  | send b => exact sendBunch_sinv e c b h
+  | flush => exact flush_sinv e c h
+  | recv bits => exact receivedPacket_sinv e c bits h
+  | update => exact update_sinv e c h
+
+/-- **every history**: as long as the magic-header width stays what it was (it is process-global configuration), after any
+sequence of sends, flushes, incoming datagram bodies and updates, at any clock values, the invariant holds and
+everything logged since the start is within the size bound -/
+theorem size_invariant (m : Nat) (ops : List (Env × Op)) : ∀ (c : Conn) (e0 : Env), e0.magicBits = m → SInv e0 c → (∀ p ∈ ops, p.1.magicBits = m) →
+    (∀ e, e.magicBits = m → SInv e (run c ops)) ∧ Adds SizeOK c (run c ops) := by
+  induction ops with
+  | nil =>
+    intro c e0 h0 h _
+    exact ⟨fun e he => h.env (by rw [he, h0]), Adds.refl _ _⟩
+  | cons p rest ih =>
+    intro c e0 h0 h hall
+    obtain ⟨e, op⟩ := p
+    have he : e.magicBits = m := hall (e, op) List.mem_cons_self
+    obtain ⟨s1, s2⟩ := step_invariant e c op (h.env (by rw [he, h0]))
+    obtain ⟨r1, r2⟩ := ih (apply e c op) e he s1 (fun q hq => hall q (List.mem_cons_of_mem _ hq))
+    exact ⟨r1, s2.trans r2⟩
+
+/-- **no over-size datagram, ever**: a datagram in the log after the history was either there before, or has at most 1025 bytes -/
+theorem no_oversize_datagram (m : Nat) (ops : List (Env × Op)) (c : Conn) (e0 : Env) (h0 : e0.magicBits = m) (h : SInv e0 c)
+    (hall : ∀ p ∈ ops, p.1.magicBits = m) (bytes : List UInt8) (hb : Event.out bytes ∈ (run c ops).log) :
+    Event.out bytes ∈ c.log ∨ bytes.length ≤ 1025 := by
+  obtain ⟨_, new, hlog, hnew⟩ := size_invariant m ops c e0 h0 h hall
+  rw [hlog] at hb
+  rcases List.mem_append.mp hb with hb | hb
+  · right; exact hnew _ hb bytes rfl
+  · left; exact hb
+
+/-- the invariant holds right after `utcp_sequence_init` on a fresh connected endpoint (server side: at accept; client side: when the
+handshake completes) -/
+theorem fresh_invariant (e : Env) (i o : Int) (hm : e.magicBits ≤ 32) : SInv e (({} : Conn).seqInit i o) :=
+  seqInit_sinv e {} i o hm rfl (by decide) rfl (by intro p hp; simp at hp)
+
+/-! non-vacuity: an idle connected endpoint past its keep-alive interval satisfies the premises; a concrete history -/
 example : ({ connected := true } : Conn).flushDue { elapsedUs := 0 } = true := by decide
+example : SInv {} (run (({} : Conn).seqInit 7 16383) [({}, .send { chIndex := 1, bOpen := true, bReliable := true, data := [true, false] }), ({}, .flush), ({}, .update)]) :=
+  (size_invariant 0 _ _ {} rfl (fresh_invariant {} 7 16383 (by decide)) (by intro p hp; simp at hp; rcases hp with rfl | rfl | rfl <;> rfl)).1 {} rfl
 
 end Utcp.Props.C18
